@@ -59,6 +59,10 @@ Plan gen_c03(uint64_t seed, int tier)
       {
         ops.push_back(Op{OP_SLEEP, r.pick<int64_t>({200, 2000, 8000})});
       }
+      if (fo_info(fo).unbounded && r.chance(1, 30))
+      {
+        ops.push_back(Op{OP_SHRINK, static_cast<int64_t>(fo_info(fo).init_cap)});
+      }
     }
   };
 
@@ -86,6 +90,10 @@ Plan gen_c03(uint64_t seed, int tier)
   if (r.chance(1, 2))
   {
     gen_stalls(p, r, static_cast<int>(r.range(1, 3)), 2000);
+  }
+  if (r.chance(1, 3))
+  {
+    p.cfg["final_flush"] = 0; // Backend::stop()'s drain is then the only thing that delivers the tail
   }
   return p;
 }
